@@ -1149,3 +1149,22 @@ Proof.
   split; [intros t x Hx; destruct t; discriminate|]. split; [intros _; reflexivity|].
   intros l k Hb. unfold init in Hb. cbn [bo] in Hb. destruct sc as [l0|]; [|discriminate]. inversion Hb; subst. now apply Hsc.
 Qed.
+
+(* start()'s "routine is still running" early return (a non-forced start on a record that has an instance context) is
+   unreachable: both callers of a non-forced start pass a record without an instance context - SetContext has just
+   stopped it, setRoutineLocked has just created it *)
+Lemma start_still_running_test_false s r ctx w : rctx (getr s r) = None ->
+  start_rec repaired s r ctx w false =
+  (if rsucc (getr s r) || Nat.eqb (rfn (getr s r)) 0 then s else spawn (stop_rec s r) r ctx (match w with Some _ => w | None => lastexit (stop_rec s r) end)).
+Proof.
+  intros H. unfold start_rec. rewrite H. cbn [negb andb fx_last repaired]. destruct (rsucc (getr s r) || Nat.eqb (rfn (getr s r)) 0); reflexivity.
+Qed.
+
+Lemma nonforced_start_sites_have_no_instance_context :
+  (forall s c r, r < length (recs s) -> rctx (getr (stop_rec (set_kctx s c) r) r) = None) /\
+  (forall s1 f arg, rctx (getr (set_routine (set_recs s1 (recs s1 ++ [new_rec f arg])) (Some (length (recs s1)))) (length (recs s1))) = None).
+Proof.
+  split.
+  - intros s c r Hl. rewrite getr_stop_rec by exact Hl. now rewrite Nat.eqb_refl.
+  - intros s1 f arg. rewrite getr_new_rec, Nat.ltb_irrefl, Nat.eqb_refl. reflexivity.
+Qed.
